@@ -22,7 +22,9 @@
       `gthSolve_accuracy` (standard model of rounded arithmetic: relative error of every component
       ≤ (1+u)^{E(n)} − 1, independent of the entries), `gthSolve_accuracy_double` (u ≤ 2⁻⁵³, n ≤ 8:
       inside the harness's 1e-12·n³), `gth_rounded_same_break`; structural reason:
-      `gth_subtraction_free` (no `Sub`/`Neg` in the model's typing).
+      `gth_subtraction_free` (no `Sub`/`Neg` in the model's typing). Round 5: the same for EVERY
+      evaluation order of the sums and dot products (`gthSolveAnyOrder_accuracy`, `sum_any_tree`,
+      `dot_fma`, `gthSolveNp_accuracy` for the use_jit=False twin).
   * the driver's two-phase program = the recursion the proofs are about: `gthRaw_eq_gthRec`.
   * "exactly one row per recurrent class": `reachMat_correct`, `recClasses_exact`,
       `stationaryDists_one_row_per_class`, `closedB_holds` (round 2).
@@ -37,6 +39,8 @@ import QEProofs.Lemmas.C02Support
 import QEProofs.Lemmas.C02Unique
 import QEProofs.Lemmas.C02Round
 import QEProofs.Lemmas.C02Acc
+import QEProofs.Lemmas.C02Order
+import QEProofs.Lemmas.C02OrderInst
 namespace QE.C02
 open Finset
 
@@ -352,7 +356,97 @@ theorem gthSolve_accuracy_double (R : RoundedOps K) (hR : R.u ≤ 1 / 2 ^ 53) (n
       ≤ ((n : K) ^ 3 / 10 ^ 12) * (gthSolve n A).getD i 0 :=
   gthSolve_rel_err_double R hR n hn hn8 A hA i
 
+/-! ## T3 (round 5) — the same accuracy for EVERY evaluation order of the sums and dot products
+
+  `Ord α` (QEModel/C02.lean) leaves open how the pivot-row sum, the back-substitution dot product and
+  the normalising sum are evaluated; `gthSolveO o` is the algorithm with these three as parameters.
+  `OrdSpec R n o` is what the analysis needs from `o`, relative to the exact sum of the values handed
+  to it: sum of `m` non-negative terms ≤ `m` factors, dot product of `m` non-negative pairs ≤ `m+1`,
+  normalising sum ≤ `n+1`.  Any binary tree over any permutation needs only `m−1` (`sum_any_tree`), a
+  product-then-tree dot `m`, an FMA chain `m` (`dot_fma`): every BLAS blocking / unrolling / FMA use,
+  NumPy's pairwise sum and the Numba loops are inside `OrdSpec`, as long as each single operation
+  obeys the standard model (extended-precision accumulators do: they round at least as finely).
+  Under/overflow and subnormals remain outside. -/
+
+/-- **Order-independent summation.** A rounded sum of non-negative terms along ANY binary tree whose
+    leaves are a permutation of `0..m−1` carries at most `m − 1` factors. -/
+theorem sum_any_tree (R : RoundedOps K) (ft : ℕ → Fl R) (hnn : ∀ i, 0 ≤ (ft i).val) (T : SumTree) (m : ℕ)
+    (hperm : T.leaves.Perm (List.range m)) :
+    Apx R.u (m - 1) (T.eval ft).val (sumUpTo (fun i => (ft i).val) m) :=
+  tree_apx_perm R ft hnn T m hperm
+
+/-- **FMA.** A dot product accumulated by fused multiply-adds (`ffma` : one rounding of `a·b + c`)
+    carries at most `m` factors — fewer than the two-rounding evaluation. -/
+theorem dot_fma (R : RoundedOps K) (ffma : K → K → K → K)
+    (hfma : ∀ a b c, 0 ≤ a → 0 ≤ b → 0 ≤ c → Apx R.u 1 (ffma a b c) (a * b + c))
+    (a b : ℕ → K) (ha : ∀ t, 0 ≤ a t) (hb : ∀ t, 0 ≤ b t) (m : ℕ) :
+    Apx R.u m (fmaAcc ffma a b m) (sumUpTo (fun t => a t * b t) m) :=
+  (fmaDot_apx R ffma hfma a b ha hb m).2
+
+/-- arbitrary trees (one per length, any bracketing of any permutation) are an admissible order -/
+theorem ordSpec_tree (R : RoundedOps K) (n : ℕ) (T : ℕ → SumTree)
+    (hT : ∀ m, 1 ≤ m → (T m).leaves.Perm (List.range m)) : OrdSpec R n (treeOrd T : Ord (Fl R)) :=
+  treeOrd_spec R n T hT
+
+/-- the left-to-right order of the Numba kernel is admissible -/
+theorem ordSpec_seq (R : RoundedOps K) (n : ℕ) : OrdSpec R n (seqOrd : Ord (Fl R)) := seqOrd_spec R n
+
+/-- NumPy's pairwise normalising sum (8 accumulators, balanced combination, sequential remainder,
+    started from the reduction identity) is admissible -/
+theorem ordSpec_np (R : RoundedOps K) (n : ℕ) : OrdSpec R n (npOrd n : Ord (Fl R)) := npOrd_spec R n
+
+/-- any dot-product routine within `m+1` factors of the exact dot product of its arguments may
+    replace the one of an admissible order (FMA chains by `dot_fma`, any BLAS kernel built from
+    standard-model operations) -/
+theorem ordSpec_any_dot (R : RoundedOps K) (n : ℕ) (o : Ord (Fl R)) (ho : OrdSpec R n o)
+    (d : List (Fl R) → List (Fl R) → Fl R)
+    (hd : ∀ a b : List (Fl R), (∀ t, 0 ≤ (a.getD t 0).val) → (∀ t, 0 ≤ (b.getD t 0).val) →
+      Apx R.u (a.length + 1) (d a b).val (sumUpTo (fun t => (a.getD t 0).val * (b.getD t 0).val) a.length)) :
+    OrdSpec R n ⟨o.sumRow, d, o.norm⟩ :=
+  ordSpec_replace_dot R n o ho d hd
+
+/-- **Headline, every evaluation order**: `|x̃_i − x_i| ≤ ((1+u)^{E(n)+1} − 1)·x_i` for every
+    component, every `n ≥ 1`, every Metzler matrix (breaking runs included), every admissible order
+    of the sums and dot products. (`E(n)+1`: one more addition is allowed in the normalising sum than
+    the sequential kernel performs.) -/
+theorem gthSolveAnyOrder_accuracy (R : RoundedOps K) (n : ℕ) (hn : 1 ≤ n) (o : Ord (Fl R))
+    (ho : OrdSpec R n o) (A : M K) (hA : OffNonneg n A) (i : ℕ) :
+    |((gthSolveO o n (liftM R n A)).getD i 0).val - (gthSolve n A).getD i 0|
+      ≤ ((1 + R.u) ^ (errBound n + 1) - 1) * (gthSolve n A).getD i 0 :=
+  gthSolveO_rel_err R n hn o ho A hA i
+
+/-- factor form of the same -/
+theorem gthSolveAnyOrder_accuracy_factors (R : RoundedOps K) (n : ℕ) (hn : 1 ≤ n) (o : Ord (Fl R))
+    (ho : OrdSpec R n o) (A : M K) (hA : OffNonneg n A) :
+    ∀ i, Apx R.u (errBound n + 1) ((gthSolveO o n (liftM R n A)).getD i 0).val ((gthSolve n A).getD i 0) :=
+  gthSolveO_apx R n hn o ho A hA
+
+/-- double precision, `n ≤ 8`, every order: inside `1e-12·n³` -/
+theorem gthSolveAnyOrder_accuracy_double (R : RoundedOps K) (hR : R.u ≤ 1 / 2 ^ 53) (n : ℕ) (hn : 1 ≤ n)
+    (hn8 : n ≤ 8) (o : Ord (Fl R)) (ho : OrdSpec R n o) (A : M K) (hA : OffNonneg n A) (i : ℕ) :
+    |((gthSolveO o n (liftM R n A)).getD i 0).val - (gthSolve n A).getD i 0|
+      ≤ ((n : K) ^ 3 / 10 ^ 12) * (gthSolve n A).getD i 0 :=
+  gthSolveO_rel_err_double R hR n hn hn8 o ho A hA i
+
+/-- **The NumPy twin** (`gthSolveNp`, the program the driver runs for `use_jit=False`), at rounded
+    arithmetic: every component within `(1+u)^{E(n)+1} − 1` of the exact solution. -/
+theorem gthSolveNp_accuracy (R : RoundedOps K) (n : ℕ) (hn : 1 ≤ n) (A : M K) (hA : OffNonneg n A) (i : ℕ) :
+    |((gthSolveNp n (liftM R n A)).getD i 0).val - (gthSolve n A).getD i 0|
+      ≤ ((1 + R.u) ^ (errBound n + 1) - 1) * (gthSolve n A).getD i 0 := by
+  rw [gthSolveNp_eq_npOrd' n hn (liftM R n A)]
+  exact gthSolveO_rel_err R n hn (npOrd n) (npOrd_spec R n) A hA i
+
 end field
+
+/-- the driver's Numba-order program is the instance `seqOrd` of `gthSolveO` (any scalar type) -/
+theorem gthSolve_eq_seqOrd {α : Type} [Zero α] [One α] [Add α] [Mul α] [Div α] [LE α] [DecidableLE α]
+    (n : ℕ) (hn : 1 ≤ n) (A : M α) : gthSolve n A = gthSolveO seqOrd n A :=
+  gthSolve_eq_seqOrd' n hn A
+
+/-- the driver's NumPy-twin program is the instance `npOrd n` of `gthSolveO` (any scalar type) -/
+theorem gthSolveNp_eq_npOrd {α : Type} [Zero α] [One α] [Add α] [Mul α] [Div α] [LE α] [DecidableLE α]
+    (n : ℕ) (hn : 1 ≤ n) (A : M α) : gthSolveNp n A = gthSolveO (npOrd n) n A :=
+  gthSolveNp_eq_npOrd' n hn A
 
 section scatter
 variable {K : Type} [Field K]
@@ -417,6 +511,20 @@ example : (gthSolve 3 (liftM (RoundedOps.biased (1/8 : ℚ) (by norm_num)) 3 exP
 example : (reduce 4 3 0 (liftM (RoundedOps.biased (1/8 : ℚ) (by norm_num)) 4 exR)).2 = 1 := by
   decide +kernel
 example : errBound 3 = 44 := by decide
+/-- a non-sequential tree: ((2+0)+1) for three terms, pairs reversed for two; `hT` of `ordSpec_tree` -/
+def exTree : ℕ → SumTree
+  | 2 => .node (.leaf 1) (.leaf 0)
+  | 3 => .node (.node (.leaf 2) (.leaf 0)) (.leaf 1)
+  | _ => .leaf 0
+example : (exTree 3).leaves.Perm (List.range 3) := by decide
+example : (exTree 2).leaves.Perm (List.range 2) := by decide
+/-- with the lossy arithmetic the tree order gives another result than the sequential order … -/
+example : (gthSolveO (treeOrd exTree) 3 (liftM (RoundedOps.biased (1/8 : ℚ) (by norm_num)) 3 exP)).map (·.val)
+    ≠ (gthSolveO seqOrd 3 (liftM (RoundedOps.biased (1/8 : ℚ) (by norm_num)) 3 exP)).map (·.val) := by
+  decide +kernel
+/-- … and with exact arithmetic the same -/
+example : (gthSolveO (treeOrd exTree) 3 (liftM (RoundedOps.exact ℚ) 3 exP)).map (·.val) = [8/19, 5/19, 6/19] := by
+  decide +kernel
 
 /-- hypotheses of `scatter_invariant` on the class `{2,3}` of `exR` -/
 example : ([2, 3] : List ℕ).Nodup ∧ (∀ c ∈ ([2, 3] : List ℕ), c < 4)
